@@ -143,11 +143,36 @@ def ri(v, pend=None):
     ]
 
 
+def content_stable(c):
+    """Lemma (consequence of heap preservation, by extensionality): a dict of arrays allocated at entry has the
+    same content at exit.  Stated once per contract so that callers get it ready-made."""
+    m = z3.Const("m!cs", z3.ArraySort(TStr.sort(), z3.BoolSort()))
+    v = z3.Const("v!cs", z3.ArraySort(TStr.sort(), z3.IntSort()))
+    k = kq("k!cs")
+    h0, h1 = c.old_sym("arr", ValS), c.new_sym("arr", ValS)
+    return z3.ForAll([m, v], z3.Implies(z3.ForAll([k], z3.Implies(m[k], z3.And(v[k] > 0, v[k] <= c.old_ctr))), contf(m, v, h1) == contf(m, v, h0)),
+                     patterns=[contf(m, v, h1)])
+
+
+def preserved(c):
+    return [("heap-preserved", heap_preserved(c)), ("content-stable", content_stable(c))]
+
+
 def entries_kept(v0, v1, upto=None):
     """Entries 1..upto (default: old max_index) are stored exactly as before, ghosts included."""
     i = z3.Int("i!ek")
     rng = v0.inR(i) if upto is None else z3.And(1 <= i, i <= upto)
     return z3.ForAll([i], z3.Implies(rng, z3.And(v1.D.has(i) == v0.D.has(i), v1.D.get(i) == v0.D.get(i), v1.cin[i] == v0.cin[i], v1.slot[i] == v0.slot[i])))
+
+
+def store_kept_except(v0, v1, idx):
+    j = z3.Int("j!ske")
+    return z3.ForAll([j], z3.Implies(j != idx, z3.And(v1.D.has(j) == v0.D.has(j), v1.D.get(j) == v0.D.get(j))))
+
+
+def group_same(v0, v1, i, g):
+    """Same presence, and when present same content and size (the arrays themselves may have been re-allocated)."""
+    return z3.And(v1.has(i, g) == v0.has(i, g), z3.Implies(v0.has(i, g), z3.And(v1.content(i, g) == v0.content(i, g), v1.dn(i, g) == v0.dn(i, g))))
 
 
 def no_alias(v0, v1):
@@ -256,7 +281,7 @@ class _InitializeEntry(_Storage):
         g = z3.Const("g!ie", TStr.sort())
         idx = c.old.index
         return [("initialized", v1.init(idx)), ("empty", z3.ForAll([g], z3.Not(v1.has(idx, g)))), ("others-kept", self.others_kept(c, idx)),
-                ("heap-preserved", heap_preserved(c))]
+                *preserved(c)]
 
 
 class _HasGroup(_Storage):
@@ -278,7 +303,10 @@ class _WriteData(_Storage):
         return ("self." + self.field, "heap:arr")
 
     def requires(self, c):
-        return AXIOMS + [("initialized", self.v(c).init(c.old.index)), ("values-allocated", allocated(c.old.values, c.old_ctr))]
+        v0 = self.v(c)
+        g, k, idx = z3.Const("g!wd", TStr.sort()), kq("k!wd"), c.old.index
+        return AXIOMS + [("initialized", v0.init(idx)), ("values-allocated", allocated(c.old.values, c.old_ctr)),
+                         ("entry-allocated", z3.ForAll([g, k], z3.Implies(z3.And(v0.has(idx, g), v0.dmem(idx, g)[k]), z3.And(v0.dvals(idx, g)[k] > 0, v0.dvals(idx, g)[k] <= v0.ctr))))]
 
     def ensures(self, c):
         v0, v1 = self.v(c), self.v(c, "new")
@@ -288,11 +316,14 @@ class _WriteData(_Storage):
             ("written", z3.And(v1.init(idx), v1.has(idx, grp))),
             ("content", v1.content(idx, grp) == cont(vals, v0.heap)),
             ("size", v1.dn(idx, grp) == vals.n),
-            ("other-groups-kept", z3.ForAll([g], z3.Implies(g != grp, z3.And(v1.has(idx, g) == v0.has(idx, g), v1.data(idx, g) == v0.data(idx, g))))),
+            ("other-groups-kept", z3.ForAll([g], z3.Implies(g != grp, group_same(v0, v1, idx, g)))),
+            ("other-groups-no-alias", z3.ForAll([g, k], z3.Implies(z3.And(g != grp, v1.has(idx, g), v1.dmem(idx, g)[k]), z3.And(
+                v1.dvals(idx, g)[k] > 0, v1.dvals(idx, g)[k] <= v1.ctr,
+                z3.Or(v1.dvals(idx, g)[k] > v0.ctr, z3.And(v0.dmem(idx, g)[k], v0.dvals(idx, g)[k] == v1.dvals(idx, g)[k])))))),
             ("others-kept", self.others_kept(c, idx)),
             # the property's aliasing clause: the cache must not reference the arrays of the caller
             ("fresh:no-stored-array-is-the-callers", z3.ForAll([k], z3.Implies(v1.dmem(idx, grp)[k], z3.And(v1.dvals(idx, grp)[k] > v0.ctr, v1.dvals(idx, grp)[k] <= v1.ctr)))),
-            ("heap-preserved", heap_preserved(c)),
+            *preserved(c),
         ]
 
 
@@ -314,10 +345,10 @@ class _ReadData(_Storage):
         present = v0.nonempty(idx, grp)
         stored = v0.content(idx, grp)
         return [
-            ("present:content", z3.Implies(present, cont(r, h1) == z3.If(grp == G_JAC, nestc(stored), stored))),
+            ("content", z3.Implies(v0.has(idx, grp), z3.If(grp == G_JAC, z3.Implies(present, cont(r, h1) == nestc(stored)), cont(r, h1) == stored))),
             ("empty-iff-absent", (r.n == 0) == z3.Not(present)),
             ("result-allocated", allocated(r, c.new_ctr)),
-            ("heap-preserved", heap_preserved(c)),
+            *preserved(c),
         ]
 
 
@@ -366,7 +397,11 @@ def _ensure_inv(c, k):
     ci = cont(c.old.input_data, v0.heap)
     p = z3.Int("p!ei")
     el = c.locals["indices"].elems
+    i = z3.Int("i!ei")
     return [("heap", heap_preserved(c)),
+            # lemmas: allocation does not change the content of what was allocated before
+            ("input-content-stable", cont(c.old.input_data, vn.heap) == ci),
+            ("view-coupling-now", z3.ForAll([i], z3.Implies(v0.inR(i), vn.content(i, G_IN) == v0.cin[i]))),
             ("no-hit-so-far", z3.ForAll([p], z3.Implies(z3.And(0 <= p, p < k), v0.cin[el[p]] != ci)))]
 
 
@@ -396,7 +431,8 @@ class EnsureInputDataExists(_Bfc):
             ("new:filed-content", z3.Implies(new, v1.cin[v0.M + 1] == ci)),
             ("new:entry-is-empty", z3.Implies(new, z3.ForAll([g], z3.Not(v1.has(v0.M + 1, g))))),
             ("entries-kept", entries_kept(v0, v1)),
-            ("heap-preserved", heap_preserved(c)),
+            ("store-kept-except-new-index", store_kept_except(v0, v1, v0.M + 1)),
+            *preserved(c),
         ]
         out += [(f"known:{l}", z3.Implies(known, f)) for l, f in ri(v1)]
         out += [(f"new:{l}", z3.Implies(new, f)) for l, f in ri(v1, pend=v0.M + 1)]
@@ -429,8 +465,9 @@ class CacheInputs(_Bfc):
             ("new:was-absent", z3.Implies(new, z3.ForAll([i], z3.Implies(v0.inR(i), v0.cin[i] != ci)))),
             ("new:only-inputs", z3.Implies(new, z3.ForAll([g], v1.has(v0.M + 1, g) == (g == G_IN)))),
             ("entries-kept", entries_kept(v0, v1)),
+            ("store-kept-except-new-index", store_kept_except(v0, v1, v0.M + 1)),
             ("no-alias", no_alias(v0, v1)),
-            ("heap-preserved", heap_preserved(c)),
+            *preserved(c),
         ] + ri(v1)
 
 
@@ -447,6 +484,9 @@ class _CacheGroup(_Bfc):
 
     def stored_content(self, c, content):
         return content
+
+    def same_size(self, stored_n, given_n):
+        return stored_n == given_n
 
     def requires(self, c):
         return AXIOMS + ri(self.v(c)) + [("args-allocated", z3.And(allocated(c.old.input_data, c.old_ctr), allocated(getattr(c.old, self.data_param), c.old_ctr)))]
@@ -467,18 +507,18 @@ class _CacheGroup(_Bfc):
             ("new:index", z3.Implies(new, v1.L == v0.M + 1)),
             ("new:was-absent", z3.Implies(new, z3.ForAll([i], z3.Implies(v0.inR(i), v0.cin[i] != ci)))),
             ("new:entry", z3.Implies(new, z3.And(z3.ForAll([g], v1.has(v0.M + 1, g) == z3.Or(g == G_IN, g == grp)), v1.content(v0.M + 1, grp) == cg,
-                                                 v1.dn(v0.M + 1, grp) == given.n))),
+                                                 self.same_size(v1.dn(v0.M + 1, grp), given.n)))),
             # every entry that was there: same inputs, same other groups, same ghosts; this group is kept if it had it,
             # filled with the given data if it is the entry of input_data, still missing otherwise
             ("old:ghosts-kept", z3.ForAll([i], z3.Implies(v0.inR(i), z3.And(v1.cin[i] == v0.cin[i], v1.slot[i] == v0.slot[i])))),
-            ("old:other-groups-kept", z3.ForAll([i, g], z3.Implies(z3.And(v0.inR(i), g != grp), z3.And(v1.has(i, g) == v0.has(i, g), v1.data(i, g) == v0.data(i, g))))),
-            ("old:group-kept", z3.ForAll([i], z3.Implies(z3.And(v0.inR(i), v0.has(i, grp)), z3.And(v1.has(i, grp), v1.data(i, grp) == v0.data(i, grp))))),
+            ("old:other-groups-kept", z3.ForAll([i, g], z3.Implies(z3.And(v0.inR(i), g != grp), group_same(v0, v1, i, g)))),
+            ("old:group-kept", z3.ForAll([i], z3.Implies(z3.And(v0.inR(i), v0.has(i, grp)), group_same(v0, v1, i, grp)))),
             ("old:group-filled", z3.ForAll([i], z3.Implies(z3.And(v0.inR(i), z3.Not(v0.has(i, grp)), hit(i)),
-                                                           z3.And(v1.has(i, grp), v1.content(i, grp) == cg, v1.dn(i, grp) == given.n)))),
+                                                           z3.And(v1.has(i, grp), v1.content(i, grp) == cg, self.same_size(v1.dn(i, grp), given.n))))),
             ("old:group-still-missing", z3.ForAll([i], z3.Implies(z3.And(v0.inR(i), z3.Not(v0.has(i, grp)), z3.Not(hit(i))), z3.Not(v1.has(i, grp))))),
             ("tolerance-kept", v1.tol == v0.tol),
             ("no-alias", no_alias(v0, v1)),
-            ("heap-preserved", heap_preserved(c)),
+            *preserved(c),
         ] + ri(v1)
 
 
@@ -495,6 +535,9 @@ class BfcCacheJacobian(_CacheGroup):
 
     def stored_content(self, c, content):
         return flatc(content)
+
+    def same_size(self, stored_n, given_n):
+        return (stored_n == 0) == (given_n == 0)  # emptiness is what readers test
 
 
 @register
@@ -518,3 +561,206 @@ class BfcClear(_Bfc):
         h = z3.Int("h!cl")
         return [("no-entry", z3.And(v1.M == 0, v1.L == 0)), ("no-bucket", z3.And(v1.H.n == 0, z3.ForAll([h], z3.Not(v1.H.has(h))))),
                 ("tolerance-kept", v1.tol == v0.tol), ("store-untouched", store_same(v0, v1))]
+
+
+# ------------------------------------------------------------------------------- lookups
+def entry_is(v0, r, e, h1):
+    """The outputs / Jacobian of the cache entry ``r`` are those of the stored entry ``e`` (absent = empty)."""
+    return z3.And(
+        z3.Implies(v0.nonempty(e, G_OUT), cont(r.outputs, h1) == v0.content(e, G_OUT)),
+        (r.outputs.n == 0) == z3.Not(v0.nonempty(e, G_OUT)),
+        z3.Implies(v0.nonempty(e, G_JAC), cont(r.jacobian, h1) == nestc(v0.content(e, G_JAC))),
+        (r.jacobian.n == 0) == z3.Not(v0.nonempty(e, G_JAC)))
+
+
+def is_empty(r):
+    return z3.And(r.outputs.n == 0, r.jacobian.n == 0)
+
+
+def _scan_inv(hit):
+    """Invariant of a scan ``for index in indices`` that returns at the first hit."""
+
+    def inv(c, k):
+        v0, vn = FC(c), FC(c, "new")
+        ci = cont(c.old.input_data, v0.heap)
+        p, i = z3.Int("p!si"), z3.Int("i!si")
+        el = c.locals["indices"].elems
+        return [("heap", heap_preserved(c)), ("content-stable", content_stable(c)),
+                ("input-content-stable", cont(c.old.input_data, vn.heap) == ci),
+                ("view-coupling-now", z3.ForAll([i], z3.Implies(v0.inR(i), vn.content(i, G_IN) == v0.cin[i]))),
+                ("no-hit-so-far", z3.ForAll([p], z3.Implies(z3.And(0 <= p, p < k), z3.Not(hit(v0, ci, v0.cin[el[p]])))))]
+
+    return inv
+
+
+@register
+class ReadInputOutputData(_Bfc):
+    targets = (BFC + "._read_input_output_data",)
+    params = {"indices": IDX, "input_data": DATA}
+    returns = ENTRY
+    modifies = ("heap:arr",)
+    loops = {0: LoopSpec(anchor="indices", modifies=("heap:arr",), inv=_scan_inv(lambda v0, ci, cs: ci == cs))}
+
+    def requires(self, c):
+        v0 = self.v(c)
+        p = z3.Int("p!rio")
+        ix = c.old.indices
+        return AXIOMS + ri(v0) + [("input-allocated", allocated(c.old.input_data, c.old_ctr)),
+                                  ("indices-are-entries", z3.ForAll([p], z3.Implies(z3.And(0 <= p, p < ix.n), v0.inR(ix.elems[p]))))]
+
+    def ensures(self, c):
+        v0 = self.v(c)
+        ci = cont(c.old.input_data, v0.heap)
+        h1 = c.new_sym("arr", ValS)
+        r, ix = c.result, c.old.indices
+        p = z3.Int("p!rio")
+        inl = z3.And(0 <= p, p < ix.n)
+        return [
+            ("inputs", cont(r.inputs, h1) == ci),
+            ("hit:entry", z3.ForAll([p], z3.Implies(z3.And(inl, v0.cin[ix.elems[p]] == ci), entry_is(v0, r, ix.elems[p], h1)))),
+            ("miss:empty", z3.Implies(z3.ForAll([p], z3.Implies(inl, v0.cin[ix.elems[p]] != ci)), is_empty(r))),
+            ("result-allocated", z3.And(allocated(r.outputs, c.new_ctr), allocated(r.jacobian, c.new_ctr))),
+            *preserved(c),
+        ]
+
+
+def _buckets_inv(c, k):
+    """After k buckets: no entry filed in them is within the tolerance."""
+    v0 = FC(c)
+    ci = cont(c.old.input_data, v0.heap)
+    h, p = z3.Int("h!bi"), z3.Int("p!bi")
+    pos = c.seq.pos
+    # keyed on the hash (not on the position in the iteration order): the trigger is the bucket element, the term pos[h]
+    # then instantiates the order view of the dictionary
+    return [("heap", heap_preserved(c)), ("content-stable", content_stable(c)),
+            ("no-hit-in-completed-buckets", z3.ForAll([h, p], z3.Implies(z3.And(v0.H.has(h), pos[h] < k, 0 <= p, p < v0.bucket_n(h)),
+                                                                     z3.Not(wtol_hit(v0, ci, v0.cin[v0.bucket_el(h)[p]]))),
+                                                      patterns=[v0.bucket_el(h)[p]]))]
+
+
+def wtol_hit(v0, ci, cs):
+    from contracts.c05_caches import wtol
+
+    return wtol(ci, cs, v0.tol)
+
+
+@register
+class BfcGetitem(_Bfc):
+    targets = (BFC + ".__getitem__",)
+    params = {"input_data": DATA}
+    returns = ENTRY
+    modifies = ("heap:arr",)
+    loops = {0: LoopSpec(anchor="self._hashes_to_indices.values()", modifies=("heap:arr",), inv=_buckets_inv, local_types={"indices": IDX}),
+             1: LoopSpec(anchor="indices", modifies=("heap:arr",), inv=_scan_inv(wtol_hit))}
+
+    def requires(self, c):
+        return AXIOMS + ri(self.v(c)) + [("input-allocated", allocated(c.old.input_data, c.old_ctr))]
+
+    def ensures(self, c):
+        v0 = self.v(c)
+        ci = cont(c.old.input_data, v0.heap)
+        h1 = c.new_sym("arr", ValS)
+        r = c.result
+        i = z3.Int("i!gi")
+        exact, tol = v0.tol == 0, v0.tol
+        within = lambda x: wtol_hit(v0, ci, v0.cin[x])  # noqa: E731
+        return [
+            ("inputs", cont(r.inputs, h1) == ci),
+            ("exact:hit", z3.Implies(exact, z3.ForAll([i], z3.Implies(z3.And(v0.inR(i), v0.cin[i] == ci), entry_is(v0, r, i, h1))))),
+            ("exact:miss", z3.Implies(z3.And(exact, z3.ForAll([i], z3.Implies(v0.inR(i), v0.cin[i] != ci))), is_empty(r))),
+            # with a tolerance: the entry of *some* stored input within the tolerance, nothing if there is none
+            ("tolerance:some-entry-within-or-none", z3.Implies(z3.Not(exact), z3.Or(
+                z3.Exists([i], z3.And(v0.inR(i), within(i), entry_is(v0, r, i, h1))),
+                z3.And(is_empty(r), z3.ForAll([i], z3.Implies(v0.inR(i), z3.Not(within(i)))))))),
+            ("result-allocated", z3.And(allocated(r.outputs, c.new_ctr), allocated(r.jacobian, c.new_ctr))),
+            *preserved(c),
+        ]
+
+
+@register
+class BfcLastEntry(_Bfc):
+    targets = (BFC + ".last_entry",)
+    returns = ENTRY
+    modifies = ("heap:arr",)
+
+    def requires(self, c):
+        return AXIOMS + ri(self.v(c))
+
+    def ensures(self, c):
+        v0 = self.v(c)
+        h1 = c.new_sym("arr", ValS)
+        r = c.result
+        return [
+            ("empty-cache", z3.Implies(v0.M == 0, z3.And(r.inputs.n == 0, is_empty(r)))),
+            ("last-accessed-entry", z3.Implies(v0.M != 0, z3.And(cont(r.inputs, h1) == v0.cin[v0.L], entry_is(v0, r, v0.L, h1)))),
+            *preserved(c),
+        ]
+
+
+# =============================================================================== MemoryFullCache
+# behavioural subtyping: each override is verified against the contract of the method it overrides,
+# the model field being represented by the private dictionary ``__data``.
+MEM_FIELD = "_MemoryFullCache__data"
+
+
+def _pickled_copy(ex, term, ty):
+    """Deep copy of a ``group -> data`` value (what a manager DictProxy stores): same names, fresh arrays with
+    the same contents."""
+    st = ex.st
+    h0 = st.symheap("arr", ValS)
+    ctr0 = st.heap.ctr
+    h1 = st.fresh_const("heap_arr", h0.sort())
+    ctr1 = st.fresh_int("addr_ctr")
+    vals1 = st.fresh_const("pickled", GD.acc(1)(term).sort())
+    g, k, a = z3.Const("g!pk", TStr.sort()), kq("k!pk"), z3.Int("a!pk")
+    mem, vals = GD.acc(0)(term), GD.acc(1)(term)
+    st.assume(ctr1 >= ctr0)
+    st.assume(z3.ForAll([a], z3.Implies(a <= ctr0, h1[a] == h0[a])))
+    st.assume(z3.ForAll([g], z3.And(DATA.acc(0)(vals1[g]) == DATA.acc(0)(vals[g]), DATA.acc(2)(vals1[g]) == DATA.acc(2)(vals[g])), patterns=[vals1[g]]))
+    st.assume(z3.ForAll([g, k], z3.Implies(z3.And(mem[g], DATA.acc(0)(vals[g])[k]),
+                                           z3.And(DATA.acc(1)(vals1[g])[k] > ctr0, DATA.acc(1)(vals1[g])[k] <= ctr1,
+                                                  h1[DATA.acc(1)(vals1[g])[k]] == h0[DATA.acc(1)(vals[g])[k]])),
+                        patterns=[DATA.acc(1)(vals1[g])[k]]))
+    st.heap.sym["arr"] = h1
+    st.heap.ctr = ctr1
+    return GD.dt.mk(mem, vals1, GD.acc(2)(term))
+
+
+plug_caches.PROXY_FIELDS[(MFC, MEM_FIELD)] = ("_MemoryFullCache__is_memory_shared", _pickled_copy)
+
+
+@register
+class MfcInitializeEntry(_InitializeEntry):
+    targets = (MFC + "._initialize_entry",)
+    field, abstract = MEM_FIELD, False
+
+
+@register
+class MfcHasGroup(_HasGroup):
+    targets = (MFC + "._has_group",)
+    field, abstract = MEM_FIELD, False
+
+
+@register
+class MfcWriteData(_WriteData):
+    targets = (MFC + "._write_data",)
+    field, abstract = MEM_FIELD, False
+
+
+@register
+class MfcReadData(_ReadData):
+    targets = (MFC + "._read_data",)
+    field, abstract = MEM_FIELD, False
+
+
+@register
+class MfcClear(_Bfc):
+    targets = (MFC + ".clear",)
+    field = MEM_FIELD
+    modifies = ("self", *CELLS)
+
+    def ensures(self, c):
+        v0, v1 = self.v(c), self.v(c, "new")
+        h, i = z3.Int("h!mc"), z3.Int("i!mc")
+        return [("no-entry", z3.And(v1.M == 0, v1.L == 0)), ("no-bucket", z3.And(v1.H.n == 0, z3.ForAll([h], z3.Not(v1.H.has(h))))),
+                ("tolerance-kept", v1.tol == v0.tol), ("store-empty", z3.And(v1.D.n == 0, z3.ForAll([i], z3.Not(v1.D.has(i)))))] + ri(v1)
